@@ -4,6 +4,7 @@ import (
 	"encoding/hex"
 	"encoding/json"
 	"fmt"
+	"github.com/elnosh/gonuts/mint/storage"
 	"math/big"
 	"sort"
 	"strconv"
@@ -151,7 +152,7 @@ func (w *W) Exec(op string) error {
 	case "meltqpm": // MPP partial melt quote with an arbitrary msat part (0, sub-sat, non-round) of an external 8 sat invoice
 		msat, _ := strconv.ParseUint(arg(1), 10, 64)
 		inv := w.LN.NewExternalInvoice(8)
-		mq, err := w.M.M.RequestMeltQuote(nut05.PostMeltQuoteBolt11Request{Request: inv.Request, Unit: "sat", Options: map[string]nut05.MppOption{"mpp": {AmountMsat: msat}}})
+		mq, err := w.api().RequestMeltQuote(nut05.PostMeltQuoteBolt11Request{Request: inv.Request, Unit: "sat", Options: map[string]nut05.MppOption{"mpp": {AmountMsat: msat}}})
 		w.note(op, err)
 		w.judgeMeltLimit(op, msat, err, w.Cfg.MPP && msat < 8000)
 		if err == nil {
@@ -263,7 +264,7 @@ func (w *W) opFund(amts []uint64) error {
 	outs := w.U.Outputs(w.M.ActiveID(), amts...)
 	w.trackOuts(outs)
 	q.LastOuts = outs
-	sigs, err := w.M.M.MintTokens(nut04.PostMintBolt11Request{Quote: q.Q.Id, Outputs: world.Msgs(outs)})
+	sigs, err := w.api().MintTokens(nut04.PostMintBolt11Request{Quote: q.Q.Id, Outputs: world.Msgs(outs)})
 	if err != nil {
 		return fmt.Errorf("fund: %v", err)
 	}
@@ -294,7 +295,16 @@ func (w *W) opMintQuote(op string, amount uint64, locked bool) error {
 			refuse = true
 		}
 	}
-	q, err := w.M.MintQuote(amount, pub)
+	var q storage.MintQuote
+	var err error
+	if w.Cfg.ViaHTTP {
+		q, err = w.api().RequestMintQuote(nut04.PostMintQuoteBolt11Request{Amount: amount, Unit: "sat", Pubkey: pub})
+		if err == nil && !w.LN.WaitBlocked(q.PaymentHash, 1) {
+			err = fmt.Errorf("harness: invoice watcher did not subscribe")
+		}
+	} else {
+		q, err = w.M.MintQuote(amount, pub)
+	}
 	w.note(op, err)
 	if refuse && err == nil {
 		w.viol("C16", "mint-quote-over-limit-accepted", "RequestMintQuote(%d) accepted with balance %d, limits %+v", amount, bal, lim)
@@ -343,7 +353,7 @@ func (w *W) opFire(qi int) error {
 
 func (w *W) opPollQuote(op string, qi int) error {
 	q := w.Quotes[qi]
-	got, err := w.M.M.GetMintQuoteState(q.Q.Id)
+	got, err := w.api().GetMintQuoteState(q.Q.Id)
 	w.note(op, err)
 	if err != nil {
 		w.viol("C20", "mint-quote-poll-failed", "GetMintQuoteState: %v", err)
@@ -461,7 +471,7 @@ func (w *W) opMint(op string, qi int, variant string) error {
 			req.Signature = hex.EncodeToString(s.Serialize())
 		}
 	}
-	sigs, err := w.M.M.MintTokens(req)
+	sigs, err := w.api().MintTokens(req)
 	w.note(op, err)
 	q.LastOuts = outs
 	paid := q.Payments > 0
@@ -610,7 +620,7 @@ func (w *W) opSwap(op, ins, variant string) error {
 		}
 		seen[w.Proofs[n].P.Secret] = true
 	}
-	sigs, err := w.M.M.Swap(proofs, world.Msgs(outs))
+	sigs, err := w.api().Swap(proofs, world.Msgs(outs))
 	w.note(op, err)
 	if err == nil {
 		if d := new(big.Int).Sub(inSum, outSum); d.Sign() > 0 && d.IsUint64() {
@@ -679,7 +689,7 @@ func (w *W) opMeltQuote(op string, amount uint64, qi int, partial bool) error {
 		req.Options = map[string]nut05.MppOption{"mpp": {AmountMsat: amount * 1000}}
 	}
 	lim := w.Cfg.Limits.MeltingSettings.MaxAmount
-	mq, err := w.M.M.RequestMeltQuote(req)
+	mq, err := w.api().RequestMeltQuote(req)
 	w.note(op, err)
 	exists := false
 	for _, m := range w.Melts {
@@ -727,7 +737,7 @@ func (w *W) judgeMeltLimit(op string, msat uint64, err error, acceptable bool) {
 // opMeltQuoteRaw requests a melt quote for an arbitrary BOLT11 string (no accept / reject demand: the statement's
 // conservation inequality judges what happens afterwards).
 func (w *W) opMeltQuoteRaw(op, request, hash string, internal int) error {
-	mq, err := w.M.M.RequestMeltQuote(nut05.PostMeltQuoteBolt11Request{Request: request, Unit: "sat"})
+	mq, err := w.api().RequestMeltQuote(nut05.PostMeltQuoteBolt11Request{Request: request, Unit: "sat"})
 	w.note(op, err)
 	if err != nil {
 		return nil
@@ -853,7 +863,7 @@ func (w *W) opMelt(op string, mi int, ins, pay, status string) error {
 	}
 	w.LN.StatusScript[m.Hash] = answers(status)
 	from := len(w.LN.Calls)
-	res, err := w.M.M.MeltTokens(bg, nut05.PostMeltBolt11Request{Quote: m.Q.Id, Inputs: proofs})
+	res, err := w.api().MeltTokens(bg, nut05.PostMeltBolt11Request{Quote: m.Q.Id, Inputs: proofs})
 	w.note(op, err)
 	delete(w.LN.PayScript, m.Hash)
 	delete(w.LN.StatusScript, m.Hash)
@@ -926,7 +936,7 @@ func (w *W) opPollMelt(op string, mi int, status string) error {
 	m := w.Melts[mi]
 	w.LN.StatusScript[m.Hash] = answers(status)
 	from := len(w.LN.Calls)
-	res, err := w.M.M.GetMeltQuoteState(bg, m.Q.Id)
+	res, err := w.api().GetMeltQuoteState(bg, m.Q.Id)
 	w.note(op, err)
 	delete(w.LN.StatusScript, m.Hash)
 	if m.Known == "none" {
@@ -964,7 +974,7 @@ func (w *W) opCheck(op, ins, status string) error {
 		w.LN.StatusScript[m.Hash] = answers(status)
 	}
 	from := len(w.LN.Calls)
-	states, err := w.M.M.ProofsStateCheck(Ys)
+	states, err := w.api().ProofsStateCheck(Ys)
 	w.note(op, err)
 	for m := range touched {
 		delete(w.LN.StatusScript, m.Hash)
